@@ -391,28 +391,14 @@ impl TimeZone {
         // possibleEpochNsAfter is not empty (i.e., isoDateTimeAfter represents the first local time
         // after the transition).
 
-        // Similar to disambiguation, we need to first get the possible epoch for the current start of day +
-        // 3 hours, then get the timestamp for the transition epoch.
-        let after = IsoDateTime::new_unchecked(
-            *iso_date,
-            IsoTime {
-                hour: 3,
-                ..Default::default()
-            },
-        );
-        let Some(after_epoch) = self
-            .get_possible_epoch_ns_for(after, provider)?
-            .into_iter()
-            .next()
-        else {
-            return Err(TemporalError::r#type()
-                .with_message("Could not determine the start of day for the provided date."));
-        };
-
+        // NOTE: A UTC offset is smaller than a day, so the instant one day after the UTC
+        // reading of the skipped midnight lies after the transition that skipped it; the
+        // transition itself is the first instant of the day.
+        let day_after = to_unchecked_utc_reading(&iso) + i128::from(NS_PER_DAY);
         let TimeZoneOffset {
             transition_epoch: Some(transition_epoch),
             ..
-        } = provider.get_named_tz_offset_nanoseconds(identifier, after_epoch.0)?
+        } = provider.get_named_tz_offset_nanoseconds(identifier, day_after)?
         else {
             return Err(TemporalError::r#type()
                 .with_message("Could not determine the start of day for the provided date."));
